@@ -11,10 +11,10 @@ class P(vlib.Prop):
     instance_obligations = []
     harness_module = "C03.Harness"
     case_type = "ctype"
-    shard = 12
+    shard = 45
     harnesses = [
         vlib.Harness("shutdown", "exporter", "./exporterhelper/internal/",
-                     {"zz_verif_c03_test.go": "C03/shutdown_test.go"}, "^TestVerifC03$", "internal", timeout=900),
+                     {"zz_verif_c03_test.go": "C03/shutdown_test.go"}, "^TestVerifC03$", "internal", timeout=240),
     ]
     rule = ""
     trusted_base = []
